@@ -92,6 +92,16 @@ def _case(draw):
     case["_orientation"] = draw(st.sampled_from(["horizontal", "vertical"]))
     case["_via_std"] = gen.chance(draw, 1, 4)
     case["_stale_output"] = draw(st.booleans())
+    case["_omit_default_flags"] = draw(st.booleans())
+    case["_decoy_file_costs"] = gen.chance(draw, 1, 4)
+    if gen.chance(draw, 1, 8):
+        # the default vector with one component set to zero (then, with default-valued options omitted, a single
+        # zero-valued option is all the tool is given)
+        which = draw(st.sampled_from(["DUPLICATION", "HORIZONTAL_TRANSFER", "FULL_LOSS", "SEGMENTAL_LOSS"]))
+        c = dict(gen.DEFAULT)
+        c[which] = 0
+        if gen.in_region(c, labelled=True):
+            case["costs"] = c
     return case
 
 
@@ -153,7 +163,8 @@ def check(case):
         labels.append("stdin/stdout")
     results = {}
     for policy in ("any", "all"):
-        results[policy] = stubs.cli_reconcile(base, algo, policy, via_std=bool(case.get("_via_std")), stale_output=bool(case.get("_stale_output")))
+        results[policy] = stubs.cli_reconcile(base, algo, policy, via_std=bool(case.get("_via_std")), stale_output=bool(case.get("_stale_output")),
+                                              omit_default_flags=bool(case.get("_omit_default_flags")), decoy_file_costs=bool(case.get("_decoy_file_costs")))
     evals = 2
     expect_fail = None
     if algo in SUPER and not has_syn:
@@ -194,6 +205,10 @@ def check(case):
                 if _no_features(got) != _no_features(want):
                     raise Violation(f"cli.naming-rule.{key}", observed=data["input"][key], expected=want.to_newick())
             ocase = dict(data["input"])
+            # the solutions are priced with the cost options the tool was given (defaults for omitted ones)
+            written = {k: (INF if v == INF else v) for k, v in ocase.get("costs", {}).items()}
+            if written != {k: v for k, v in base["costs"].items()}:
+                raise Violation("cli.costs-of-written-solution!=cost-options", observed=written, expected=base["costs"])
             oinst = Instance(ocase, label=False)
             m = data["object_species"]
             why = oinst.mapping_valid(m)
